@@ -19,10 +19,9 @@ for n in 1 2 benign; do
   fi
   git checkout -q -- agilerl
   if [ "$n" = benign ]; then props="C01 C02 C03 C04 C05 C06 C07 C08 C09 C10 C11 C12 C13 C14 C15 C16 C17 C18 C19 C20"; else props=$p; fi
-  chk=$(/verif/tools/try_patch.sh $wt/$d/patch.diff $props 2>&1 | grep '^== ' | grep -v 'rc=0' | tr '\n' ' ')
+  chk=$(TRY_OUT=$out/${p}_${n}_chk /verif/tools/try_patch.sh $wt/$d/patch.diff $props 2>&1 | grep '^== ' | grep -v 'rc=0' | tr '\n' ' ')
   [ "$n" = benign ] && [ -z "$chk" ] && chk="all 20 rc=0"
   [ "$n" != benign ] && [ -z "$chk" ] && chk="== $p rc=0 (MISSED)"
   echo "$p/$n: demo clean=$rc_clean patched=$rc_patched | tests[$tests]: $tres | checks: $chk" > $out/${p}_$n.txt
-  cp /tmp/try_$p.out $out/${p}_${n}_check.out 2>/dev/null
 done
 cat $out/${p}_1.txt $out/${p}_2.txt $out/${p}_benign.txt
